@@ -75,6 +75,14 @@ class GotranCCodePrinter(C99CodePrinter):
         # numbers, otherwise C would perform integer division (1/4 == 0).
         return super()._print_Mul(_float_denominators(expr))
 
+    def _print_re(self, expr):
+        # All model quantities are real. (sympy introduces re and im when it cannot
+        # prove that, e.g. abs(exp(x**0.5)) becomes exp(re(x**0.5)))
+        return self._print(expr.args[0])
+
+    def _print_im(self, expr):
+        return self._print(sympy.S.Zero)
+
     def _print_Abs(self, expr):
         # All quantities are doubles. Sympy would use the integer function abs
         # (which is not declared by math.h) for integer valued arguments such as floor(x)
